@@ -1,0 +1,25 @@
+//go:build verif
+
+package hsmsss
+
+import (
+	"net"
+	"time"
+)
+
+// This file exists only under the `verif` build tag (external verification harness, property
+// C04): it adds code only and changes no production behaviour.
+
+// VerifTransportWriteBracket performs, on conn, exactly the deadline calls the hsms core makes
+// around one frame write through this transport (writeFrame: SetWriteDeadline(conn, deadline)
+// before tr.Write, SetWriteDeadline(conn, zero) after it), using the REAL transport methods.
+// The harness calls it while a simulated-conn Read of readFrame is parked, to check that a local
+// write does not disturb the receive side's T8 deadline.
+func VerifTransportWriteBracket(conn net.Conn, deadline time.Time) error {
+	t := newTransport(Config{})
+	if err := t.SetWriteDeadline(conn, deadline); err != nil {
+		return err
+	}
+
+	return t.SetWriteDeadline(conn, time.Time{})
+}
